@@ -47,11 +47,21 @@
 (*                Solve depends only on the operands the object holds at    *)
 (*                that moment (SeqCurrentOperands) and satisfies their      *)
 (*                optimality system (SeqOptimality).                        *)
+(*  kind "cgill": ill-conditioned CGLS / PCGLS problems (nearly collinear   *)
+(*                dyadic columns, zero or tiny shift) in postcondition      *)
+(*                form: TLC verifies the constructed point exactly; in      *)
+(*                floating point more than n iterations are needed.         *)
+(*  kind "proc" : ONE process, a LIST of different problems solved by       *)
+(*                different wrapper objects in every order (action Call):   *)
+(*                the outcome of a call depends on its own arguments only   *)
+(*                (CallsIndependent).                                       *)
 (*                                                                         *)
 (* Named deviations (off in the deciding configurations):                  *)
 (*   PcglsIgnoresShift  : PCGLS drops the shift from s and delta            *)
 (*   MaximizeDropsSign  : maximize hands f itself to SciPy                  *)
 (*   StaleCachedOperand : a reassigned A does not clear the cached A^T b    *)
+(*   DefaultsLeakBetweenCalls : the default iteration limit of the first   *)
+(*                        call of the process governs every later call     *)
 (***************************************************************************)
 EXTENDS MatQ, FiniteSets, TLC, Json
 
@@ -62,13 +72,14 @@ CONSTANTS MaxDim,            \* CGLS: all full-rank A in {-1,0,1}^(m x n), m, n 
                              \* 2 (thorough): every b in the box, all 2x2 unimodular matrices over {-1,0,1,2}, and 3x3
           MagBound,          \* cg: a state whose numerators / denominators exceed this is not iterated further (32-bit TLC)
           MagBound3,         \* the same bound for the problems with a dimension equal to 3
-          Kinds,             \* subset of {"cg", "prox", "kkt", "lm", "wrap", "seq"}
+          Kinds,             \* subset of {"cg", "cgill", "prox", "kkt", "lm", "wrap", "seq", "proc"}
           Emit,
           SeqLen,            \* seq: number of operations per behaviour (the last one is a Solve)
           SeqSets,           \* seq: at most this many reassignments per behaviour
           PcglsIgnoresShift,
           MaximizeDropsSign,
-          StaleCachedOperand
+          StaleCachedOperand,
+          DefaultsLeakBetweenCalls
 
 VARIABLES pb,     \* the problem (record with field kind)
           ph,     \* "new": problem chosen, nothing computed yet; "run": state initialised
@@ -912,11 +923,223 @@ EmitSeq ==
                                                    exp |-> hist[i].exp, g0 |-> hist[i].g0]]]) \o " @@END")
 
 (***************************************************************************)
+(* kind "cgill": ILL-CONDITIONED least-squares problems constructed from   *)
+(* their (shifted) normal equations.                                       *)
+(*                                                                         *)
+(* FiniteTermination (k <= n) is a theorem of EXACT arithmetic.  The       *)
+(* contract of the implementation is its stopping rule: it iterates until  *)
+(* |s_k| <= tol |s_0| or k = maxit, and in floating point that takes MORE  *)
+(* than n iterations as soon as the columns of A are nearly collinear.     *)
+(* The exact iterates of such problems are far beyond 32-bit rationals, so *)
+(* these problems are specified in POSTCONDITION form (as kind kkt): the    *)
+(* spec constructs A, b, shift and the point xs, TLC verifies exactly that  *)
+(* xs is THE solution of (A^T A + shift I) x = A^T b (normal residual zero,*)
+(* full column rank), that the data are dyadic (exact in binary floating   *)
+(* point) and that the shifted normal matrix is ill-conditioned (two       *)
+(* Rayleigh quotients); the replayer requires the point returned for a     *)
+(* LARGE maxit and a TINY tol to be xs.                                    *)
+(*                                                                         *)
+(*   Asq   = all ones + diag(0, pat_1, pat_2, ...) 2^-k   (det = prod pat_i 2^-k: the inverse is dyadic)   *)
+(*   A     = Asq, or Asq with the sum of its rows appended (tall; g = (1..1,-1) rho is orthogonal to range(A))      *)
+(*   b     = A xs + g + shift h,   h = (Asq^-T xs, 0):   A^T g = 0, A^T h = xs                                    *)
+(***************************************************************************)
+IllN(p)     == Len(p.pat) + 1
+IllM(p)     == IF p.tall THEN IllN(p) + 1 ELSE IllN(p)
+IllEps(p)   == Q(1, IPow(2, p.k))
+IllShift(p) == IF p.shexp = 0 THEN Zero ELSE Q(1, IPow(2, p.shexp))
+IllSq(p)    == LET n == IllN(p) IN
+               F([i \in 1..n |-> F([j \in 1..n |-> IF i = j /\ i > 1 THEN QAdd(One, QMul(R(p.pat[i - 1]), IllEps(p))) ELSE One])])
+IllA(p)     == LET n == IllN(p)  Sq == IllSq(p) IN
+               IF p.tall THEN F(Append(Sq, F([j \in 1..n |-> QSumSeq([i \in 1..n |-> Sq[i][j]])]))) ELSE Sq
+IllXsAll    == <<1, -2, 3, -1>>
+IllXs(p)    == F([i \in 1..IllN(p) |-> R(IllXsAll[i])])
+IllRho      == 2
+IllG(p)     == F([i \in 1..IllM(p) |-> IF ~p.tall THEN Zero ELSE IF i <= IllN(p) THEN R(IllRho) ELSE R(-IllRho)])
+IllH(p)     == LET h == QMV(MT(QMInv(IllSq(p))), IllXs(p)) IN IF p.tall THEN F(Append(h, Zero)) ELSE h
+IllB(p)     == F(QVAdd(QVAdd(QMV(IllA(p), IllXs(p)), IllG(p)), QVScale(IllShift(p), IllH(p))))
+
+IllX0s(n) == { [i \in 1..n |-> 0], [i \in 1..n |-> IF i = n THEN -1 ELSE 1] }
+IllPats(n) == IF n = 3 THEN { <<1, 1>>, <<1, -1>>, <<1, 2>> } ELSE { <<1, -1, 2>>, <<1, 2, -2>> }
+IllPrecs(sv, n) == IF sv = "cgls" THEN {<<>>} ELSE IF n = 3 THEN Precs(3) ELSE { <<<<1, 0, 0, 0>>, <<1, 1, 0, 0>>, <<0, -1, 1, 0>>, <<0, 0, 2, 1>>>> }
+IllTolExp == 13        \* tol = 10^-13
+IllMaxit  == 500       \* two orders of magnitude above n
+IllCasesOf(sv, n, Ks, Ses) ==
+    { [kind |-> "cgill", solver |-> sv, k |-> k, pat |-> pat, tall |-> tl, shexp |-> se, x0 |-> x0, P |-> P] :
+        k \in Ks, pat \in IllPats(n), tl \in BOOLEAN, se \in Ses, x0 \in IllX0s(n), P \in IllPrecs(sv, n) }
+IllCases ==
+    UNION { IllCasesOf(sv, 3, IF Level >= 2 THEN {8, 9, 10} ELSE {8, 10}, IF Level >= 2 THEN {0, 16, 20} ELSE {0, 20})
+            \cup (IF Level >= 2 THEN IllCasesOf(sv, 4, {8}, {0, 20}) ELSE {}) : sv \in {"cgls", "pcgls"} }
+
+RECURSIVE IsPow2(_)
+IsPow2(d) == d = 1 \/ (d > 1 /\ d % 2 = 0 /\ IsPow2(d \div 2))
+Dyadic(v) == \A i \in 1..Len(v) : IsPow2(v[i][2])
+
+\* xs solves the shifted normal equations (normal residual A^T (b - A xs) - shift xs = 0, evaluated in this order: the numbers
+\* stay small) and is their only solution (full column rank); the data are exact binary floating-point numbers
+IllSolutionExact ==
+    Run("cgill") =>
+        LET A == IllA(pb)  b == IllB(pb)  xs == IllXs(pb)  sh == IllShift(pb)  n == IllN(pb) IN
+        /\ QVSub(QMV(MT(A), QVSub(b, QMV(A, xs))), QVScale(sh, xs)) = F([i \in 1..n |-> Zero])
+        /\ QRank(A) = n
+        /\ QMV(MT(A), IllG(pb)) = F([i \in 1..n |-> Zero])
+        /\ \A i \in 1..Len(A) : Dyadic(A[i])
+        /\ Dyadic(b) /\ Dyadic(<<sh>>)
+
+\* the shifted normal matrix M = A^T A + shift I has a Rayleigh quotient >= n (at e_1) and one <= 2^-IllCondBits (at
+\* e_1 - e_2, the difference of two nearly collinear columns): cond(M) >= n 2^IllCondBits
+IllCondBits == 12
+IllConditioned ==
+    Run("cgill") =>
+        LET A == IllA(pb)  n == IllN(pb)  sh == IllShift(pb)
+            e1 == F([i \in 1..n |-> IF i = 1 THEN One ELSE Zero])
+            v  == F([i \in 1..n |-> IF i = 1 THEN One ELSE IF i = 2 THEN QNeg(One) ELSE Zero])
+        IN /\ RLe(R(n), QAdd(QNorm2(QMV(A, e1)), sh))
+           /\ RLe(QAdd(QDiv(QNorm2(QMV(A, v)), QNorm2(v)), sh), Q(1, IPow(2, IllCondBits)))
+
+EmitIll ==
+    (Emit /\ Run("cgill")) =>
+        PrintT("@@CASE " \o ToJson([kind |-> "cgill", solver |-> pb.solver, m |-> IllM(pb), n |-> IllN(pb), k |-> pb.k, pat |-> pb.pat,
+                                    tall |-> pb.tall, shexp |-> pb.shexp, A |-> IllA(pb), b |-> IllB(pb), x0 |-> pb.x0,
+                                    shift |-> IllShift(pb), P |-> pb.P, xsol |-> IllXs(pb), tolexp |-> IllTolExp, maxit |-> IllMaxit,
+                                    condbits |-> IllCondBits]) \o " @@END")
+
+(***************************************************************************)
+(* kind "proc": ONE PROCESS, a LIST of different problems solved one after *)
+(* the other by DIFFERENT wrapper objects (actions Call).                  *)
+(*                                                                         *)
+(*   pb.list : the calls of the list (a set; TLC explores every order);     *)
+(*   it.amb  : ambient state of the process that outlives a call (module    *)
+(*             level variables, default arguments shared between calls):    *)
+(*             the intended design has NONE (0);                            *)
+(*   hist    : the calls made so far, each with the iteration limit its     *)
+(*             SciPy target works under.                                    *)
+(* A call is a wrapper x method x objective x start x documented keyword    *)
+(* arguments.  Its outcome is a function of ITS OWN arguments: the limit is *)
+(* the user's maxiter if given, else the documented default of the SciPy    *)
+(* method for the dimension of THIS problem (DocLimit) - never something a  *)
+(* previous (smaller or larger) problem left behind (CallsIndependent).     *)
+(* The lists mix small problems with problems / methods that need many      *)
+(* iterations (Nelder-Mead on a Rosenbrock-type chain polynomial in 5       *)
+(* variables, L-BFGS-B / CG on quadratics with condition number 4^11 / 4^7).*)
+(* Named deviation DefaultsLeakBetweenCalls: the limit 200 n of the first   *)
+(* default / BFGS / CG call stays behind and governs every later call.      *)
+(*                                                                         *)
+(* objectives of any dimension (fn = [obj, a, c]; c is always the optimum): *)
+(*   "quad"  : 1/2 sum_i a_i (x_i - c_i)^2                                  *)
+(*   "chain" : 1/2 [ sum_{i<n} (x_i - 1)^2 + a_1 sum_{i<n} (x_{i+1} - x_i^2)^2 ]     (c = (1, ..., 1))              *)
+(***************************************************************************)
+NObjF(fn, z) ==
+    LET n == Len(z) IN
+    IF fn.obj = "quad" THEN QMul(Half, QSumSeq([i \in 1..n |-> QMul(R(fn.a[i]), QSq(QSub(z[i], R(fn.c[i]))))]))
+    ELSE QMul(Half, QAdd(QSumSeq([i \in 1..(n - 1) |-> QSq(QSub(z[i], One))]),
+                         QMul(R(fn.a[1]), QSumSeq([i \in 1..(n - 1) |-> QSq(QSub(z[i + 1], QSq(z[i])))]))))
+NObjGrad(fn, z) ==
+    LET n == Len(z)  a == R(fn.a[1]) IN
+    IF fn.obj = "quad" THEN F([i \in 1..n |-> QMul(R(fn.a[i]), QSub(z[i], R(fn.c[i])))])
+    ELSE F([i \in 1..n |->
+              QAdd(IF i < n THEN QSub(QSub(z[i], One), QMul(QMul(Two, a), QMul(QSub(z[i + 1], QSq(z[i])), z[i]))) ELSE Zero,
+                   IF i > 1 THEN QMul(a, QSub(z[i], QSq(z[i - 1]))) ELSE Zero)])
+
+Pow4(n)  == [i \in 1..n |-> IPow(4, i - 1)]
+Ones(n)  == [i \in 1..n |-> 1]
+Zeros(n) == [i \in 1..n |-> 0]
+Alt(n)   == [i \in 1..n |-> IF i % 2 = 1 THEN -1 ELSE 0]
+QuadFn(a)     == [obj |-> "quad", a |-> a, c |-> Ones(Len(a))]
+ChainFn(n, a) == [obj |-> "chain", a |-> <<a>>, c |-> Ones(n)]
+
+PC(name, w, me, fn, x0, gr, opt) ==
+    [name |-> name, wrapper |-> w, method |-> me, obj |-> fn.obj, a |-> fn.a, c |-> fn.c, x0 |-> x0, grad |-> gr, opt |-> opt]
+ProcCalls ==
+    [ small1 |-> PC("small1", "minimize", "default", QuadFn(<<2>>), <<0>>, TRUE, "default"),
+      small2 |-> PC("small2", "minimize", "default", QuadFn(<<1, 2>>), <<0, 3>>, TRUE, "default"),
+      smallb |-> PC("smallb", "minimize", "BFGS", QuadFn(<<3>>), <<2>>, FALSE, "default"),
+      opt3   |-> PC("opt3", "minimize", "default", QuadFn(<<1, 2>>), <<2, 1>>, TRUE, "maxiter"),
+      nm5    |-> PC("nm5", "minimize", "Nelder-Mead", ChainFn(5, 4), Alt(5), FALSE, "default"),
+      nm4    |-> PC("nm4", "minimize", "Nelder-Mead", ChainFn(4, 100), Alt(4), FALSE, "default"),
+      pw4    |-> PC("pw4", "minimize", "Powell", ChainFn(4, 16), Alt(4), FALSE, "default"),
+      lb12   |-> PC("lb12", "minimize", "L-BFGS-B", QuadFn(Pow4(12)), Zeros(12), TRUE, "default"),
+      cg8    |-> PC("cg8", "minimize", "CG", QuadFn(Pow4(8)), Zeros(8), TRUE, "default"),
+      maxcg8 |-> PC("maxcg8", "maximize", "CG", QuadFn(Pow4(8)), Zeros(8), TRUE, "default"),
+      max3   |-> PC("max3", "maximize", "default", ChainFn(3, 16), Alt(3), TRUE, "default"),
+      bf16   |-> PC("bf16", "minimize", "default", ChainFn(16, 100), Alt(16), TRUE, "default"),
+      lbw12  |-> PC("lbw12", "L_BFGS_B", "default", QuadFn(Pow4(12)), Zeros(12), TRUE, "default"),
+      ls2    |-> PC("ls2", "LS", "trf", QuadFn(<<1, 2>>), <<2, 1>>, TRUE, "tight") ]
+
+\* the lists: each one has a small problem and one that needs many iterations; TLC explores every order
+ProcLists ==
+    { {"small1", "nm5"}, {"small2", "lb12"}, {"small1", "cg8", "maxcg8"}, {"opt3", "pw4", "lbw12"} }
+    \cup (IF Level >= 2 THEN { {"smallb", "nm4", "ls2"}, {"small2", "max3", "bf16"}, {"small1", "small2", "nm5", "lb12"} } ELSE {})
+ProcProblems == { [kind |-> "proc", list |-> L] : L \in ProcLists }
+
+ProcDim(c) == Len(c.x0)
+ProcKw(c)  == OptTable(c.wrapper)[c.opt]
+\* the user's own iteration limit (0: none given): maxiter directly or inside options
+ProcUserLimit(c) ==
+    LET kw == ProcKw(c)
+        direct == { kw[i].v.n : i \in { j \in 1..Len(kw) : kw[j].k = "maxiter" } }
+        inopt  == UNION { { kw[i].v.items[j].v.n : j \in { l \in 1..Len(kw[i].v.items) : kw[i].v.items[l].k = "maxiter" } }
+                          : i \in { j \in 1..Len(kw) : kw[j].k = "options" } }
+    IN IF direct \cup inopt = {} THEN 0 ELSE CHOOSE v \in direct \cup inopt : TRUE
+\* documented default iteration limits of the SciPy targets (scipy.optimize.minimize / fmin_l_bfgs_b / least_squares)
+DocDefault(c) ==
+    LET n == ProcDim(c) IN
+    CASE c.wrapper = "L_BFGS_B" -> 15000
+      [] c.wrapper = "LS"       -> 0                         \* max_nfev is an argument of the wrapper (maxit), not a default
+      [] c.method \in {"default", "BFGS", "CG", "Nelder-Mead"} -> 200 * n
+      [] c.method = "Powell"    -> 1000 * n
+      [] c.method = "L-BFGS-B"  -> 15000
+DocLimit(c) == IF ProcUserLimit(c) # 0 THEN ProcUserLimit(c) ELSE DocDefault(c)
+
+LeakSets(c) == c.wrapper \in {"minimize", "maximize"} /\ c.method \in {"default", "BFGS", "CG"} /\ ProcUserLimit(c) = 0
+ProcStart(p) == /\ it' = [amb |-> 0]
+                /\ hist' = <<>>
+Call ==
+    /\ Run("proc")
+    /\ \E nm \in pb.list :
+          /\ \A i \in 1..Len(hist) : hist[i].call.name # nm
+          /\ LET c    == ProcCalls[nm]
+                 amb1 == IF DefaultsLeakBetweenCalls /\ it.amb = 0 /\ LeakSets(c) THEN 200 * ProcDim(c) ELSE it.amb
+                 lim  == IF ProcUserLimit(c) # 0 THEN ProcUserLimit(c)
+                         ELSE IF amb1 # 0 /\ c.wrapper \in {"minimize", "maximize"} THEN amb1 ELSE DocDefault(c)
+             IN /\ it' = [amb |-> amb1]
+                /\ hist' = Append(hist, [call |-> c, limit |-> lim])
+    /\ UNCHANGED <<pb, ph>>
+
+\* every call works under the limit its OWN arguments define, whatever was solved before in the process
+CallsIndependent ==
+    Run("proc") => \A i \in 1..Len(hist) : hist[i].limit = DocLimit(hist[i].call)
+
+\* the optimum the spec names is the stationary point and a strict minimum along every coordinate direction
+\* (of f for minimize / LS / L_BFGS_B; the maximiser of -f for maximize)
+ProcOptimum ==
+    (Run("proc") /\ Len(hist) = 0) => \A nm \in pb.list :                  \* once per list (the calls do not change)
+        LET c == ProcCalls[nm]  fn == [obj |-> c.obj, a |-> c.a, c |-> c.c]  cs == VR(c.c)  n == ProcDim(c) IN
+        /\ Len(c.c) = n /\ (c.obj = "quad" => Len(c.a) = n)
+        /\ NObjGrad(fn, cs) = F([i \in 1..n |-> Zero])
+        /\ \A i \in 1..n : \A s \in {-1, 1} :
+              RLt(NObjF(fn, cs), NObjF(fn, F([j \in 1..n |-> IF j = i THEN QAdd(cs[j], R(s)) ELSE cs[j]])))
+        /\ (n = 2 /\ c.obj = "quad" => \A z \in ILat2(-3, 3) : NObjF(fn, z) = ObjF(fn, z))        \* same family as kind wrap
+
+ProcShape == Run("proc") => Len(hist) <= Cardinality(pb.list)
+
+EmitProc ==
+    (Emit /\ Run("proc") /\ Len(hist) = Cardinality(pb.list)) =>
+        PrintT("@@CASE " \o ToJson([kind |-> "proc",
+                                    calls |-> [i \in 1..Len(hist) |->
+                                                 LET c == hist[i].call IN
+                                                 [name |-> c.name, wrapper |-> c.wrapper, method |-> c.method, obj |-> c.obj, a |-> c.a, c |-> c.c,
+                                                  x0 |-> c.x0, grad |-> c.grad, opt |-> c.opt, kw |-> ProcKw(c),
+                                                  sign |-> WrapSign(c.wrapper), sense |-> Sense(c.wrapper), info |-> InfoMap(c.wrapper),
+                                                  warn |-> IF c.wrapper = "L_BFGS_B" THEN [wf \in 1..3 |-> WarnMap[wf - 1]] ELSE <<>>,
+                                                  limit |-> hist[i].limit, doclimit |-> DocLimit(c), dim |-> ProcDim(c)]]]) \o " @@END")
+
+(***************************************************************************)
 AllProblems ==
     (IF "cg" \in Kinds THEN CgAll ELSE {}) \cup (IF "prox" \in Kinds THEN ProxCases ELSE {})
     \cup (IF "kkt" \in Kinds THEN KktAll ELSE {}) \cup (IF "lm" \in Kinds THEN LmProblems ELSE {})
     \cup (IF "wrap" \in Kinds THEN WrapCases ELSE {})
     \cup (IF "seq" \in Kinds THEN SeqBases ELSE {})
+    \cup (IF "cgill" \in Kinds THEN IllCases ELSE {}) \cup (IF "proc" \in Kinds THEN ProcProblems ELSE {})
 
 \* Init only chooses the problem; everything is computed by Start (TLC evaluates Init on one thread only)
 Init == pb \in AllProblems /\ ph = "new" /\ it = <<>> /\ hist = <<>>
@@ -924,9 +1147,10 @@ Init == pb \in AllProblems /\ ph = "new" /\ it = <<>> /\ hist = <<>>
 Start ==
     /\ ph = "new"
     /\ ph' = "run"
-    /\ IF pb.kind = "cg" THEN CgInit(pb) ELSE IF pb.kind = "seq" THEN SeqStart(pb) ELSE UNCHANGED <<it, hist>>
+    /\ IF pb.kind = "cg" THEN CgInit(pb) ELSE IF pb.kind = "seq" THEN SeqStart(pb)
+       ELSE IF pb.kind = "proc" THEN ProcStart(pb) ELSE UNCHANGED <<it, hist>>
     /\ UNCHANGED pb
 
-Next == Start \/ Iterate \/ Solve \/ SetOp
+Next == Start \/ Iterate \/ Solve \/ SetOp \/ Call
 Spec == Init /\ [][Next]_vars
 =============================================================================
